@@ -435,14 +435,7 @@ func (c tpullCase) runCode() (obs tpullObs) {
 		}
 		return true
 	}
-	var writes []string
-	if !c.KeepUp {
-		for i := 0; i < tpullPads; i++ {
-			writes = append(writes, fmt.Sprintf("s:p%d:1", i))
-		}
-	}
-	writes = append(writes, c.Writes...)
-	writes = append(writes, "s:~:1")
+	writes := c.allWrites()
 	done := make(chan bool, 1)
 	go func() {
 		for _, w := range writes {
@@ -537,6 +530,68 @@ func (c tpullCase) monitor(m *lib.Monitor, obs tpullObs) {
 	}
 }
 
+// allWrites: the pads (for a subscriber that falls behind), the case's writes, the fence
+func (c tpullCase) allWrites() []string {
+	var writes []string
+	if !c.KeepUp {
+		for i := 0; i < tpullPads; i++ {
+			writes = append(writes, fmt.Sprintf("s:p%d:1", i))
+		}
+	}
+	writes = append(writes, c.Writes...)
+	return append(writes, "s:~:1")
+}
+
+// modelLine: the events the writes put on the collection's bus (values = the tokens written), all offered to the
+// merge machine before anything is taken from it, then taken one by one
+func (c tpullCase) modelLine() string {
+	cur := map[string]string{}
+	for _, s := range c.Start {
+		p := strings.SplitN(s, ":", 2)
+		cur[p[0]] = p[1]
+	}
+	var ms []string
+	for _, w := range c.allWrites() {
+		p := strings.Split(w, ":")
+		old, present := cur[p[1]]
+		switch {
+		case p[0] == "x" && !present:
+			continue
+		case p[0] == "x":
+			ms = append(ms, fmt.Sprintf("r:%s,REMOVE,0,%s,-,0,0", p[1], old))
+			delete(cur, p[1])
+		case present:
+			ms = append(ms, fmt.Sprintf("r:%s,UPDATE,0,%s,%s,0,0", p[1], old, p[2]))
+			cur[p[1]] = p[2]
+		default:
+			ms = append(ms, fmt.Sprintf("r:%s,ADD,0,-,%s,0,0", p[1], p[2]))
+			cur[p[1]] = p[2]
+		}
+	}
+	n := len(ms)
+	for i := 0; i < n; i++ {
+		ms = append(ms, "e")
+	}
+	return "tstream " + strings.Join(ms, " ")
+}
+
+// idKinds: "<id>,<KIND>,<old>,<new>" items (model: "<id>,<KIND>,<time>,<old>,<new>,…") -> "<id>:<KIND>:<old?><new?> …"
+func idKinds(items []string, oldAt int) string {
+	var out []string
+	has := func(v string) string {
+		if v == "-" {
+			return "-"
+		}
+		return "v"
+	}
+	for _, it := range items {
+		if f := fields(it); len(f) > oldAt+1 {
+			out = append(out, f[0]+":"+f[1]+":"+has(f[oldAt])+has(f[oldAt+1]))
+		}
+	}
+	return strings.Join(out, " ")
+}
+
 func genTpullCases(f lib.Flags) []tpullCase {
 	ops := []string{"s:a:2", "s:a:3", "x:a", "s:b:2", "x:b"}
 	var seqs [][]string
@@ -572,15 +627,48 @@ func genTpullCases(f lib.Flags) []tpullCase {
 
 func runTraitPull(f lib.Flags, res *lib.Result) {
 	mon := res.Monitor("trait-collection-stream", "the REAL collection streams of the trait packages, at the subscriber's end: parentpb ModelServer.PullChildren, hailpb PullHails, publicationpb PullPublications, vendingpb PullConsumables and PullInventory, electricpb PullModes (a server stream whose Send is the harness) and metadatapb Collection.PullAllMetadata; a lossy subscriber receives the seeds, stops receiving while six pads and then EVERY sequence of up to 3 writes over set a / set a / remove a / set b / remove b are made through the trait's own API (from two start states; the writes meet in the merge buffer: every merged kind, REPLACE included), then reads on to a fence; plus subscribers that keep up; oracle: every change carries the values it is about, is well formed at the subscriber's view (kind vs values, old-value chain) and the folded view is what the trait's List shows; distinct = trait x start x writes; non-trivial = fewer changes than writes arrived")
+	tie := res.Tie("trait-stream-merged-kinds", "K1",
+		"the merge machine as coded (MapQueue.lean: every event the writes put on the bus offered before anything is taken, then taken one by one) piped through the conversion stage (arun (castChange f), TraitAdapter.lean; driver op tstream) vs the REAL trait streams at the subscriber's end (the seven streams of monitor trait-collection-stream, subscriber behind while the writes are made): compared: the sequence of (item, change type, old value attached?, new value attached?) the subscriber receives after its seeds - which changes were merged, into which kind (REPLACE, nothing, …), in which order, carrying which of their values; the values themselves are the monitor's subject (each trait stores its own message type); non-trivial = fewer changes than writes; distinct = trait x start x writes")
+	tie.Exhaustive = true
 	cases := genTpullCases(f)
 	obss := make([]tpullObs, len(cases))
 	parallelDo(len(cases), func(i int) { obss[i] = cases[i].runCode() })
+	var lines []string
+	var tied []int
 	for i, c := range cases {
-		obs := obss[i]
-		if obs.Stuck != "" { // a stall of a loaded machine does not repeat
-			obs = c.runCode()
+		if obss[i].Stuck != "" { // a stall of a loaded machine does not repeat
+			obss[i] = c.runCode()
 		}
-		c.monitor(mon, obs)
+		c.monitor(mon, obss[i])
+		if !c.KeepUp {
+			lines = append(lines, c.modelLine())
+			tied = append(tied, i)
+		}
+	}
+	drv, err := lib.StartDriver(f.Driver)
+	if err != nil {
+		tie.Fail(err)
+		return
+	}
+	defer drv.Close()
+	ans, err := drv.Batch(lines)
+	if err != nil {
+		tie.Fail(err)
+		return
+	}
+	for k, i := range tied {
+		c, obs := cases[i], obss[i]
+		var outs []string
+		for _, o := range strings.Split(ans[k], ";") {
+			if o != "none" && o != "-" {
+				outs = append(outs, o)
+			}
+		}
+		code := "!" + obs.Stuck + obs.WriteErr
+		if obs.Stuck == "" && obs.WriteErr == "" && len(obs.Got) >= len(c.Start) {
+			code = idKinds(obs.Got[len(c.Start):], 2)
+		}
+		tie.Record(c.key(), len(outs) < obs.Made, c, idKinds(outs, 3), code)
 	}
 	res.Extra["trait_pull_cases"] = len(cases)
 }
